@@ -13,6 +13,7 @@ FAMILY_ARGS = {
     'admit': {'quick': [], 'thorough': []},
     'buffer': {'quick': ['-seed', '{seed}', '-n', '3000', '-exhaustive', '5', '-maxlen', '40'],
                'thorough': ['-seed', '{seed}', '-n', '60000', '-exhaustive', '7', '-maxlen', '300']},
+    'setters': {'quick': [], 'thorough': []},
     'hist': {'quick': ['-seed', '{seed}', '-n', '700'],
              'thorough': ['-seed', '{seed}', '-n', '12000']},
     'cycle': {'quick': ['-seed', '{seed}', '-n', '2000', '-exhaustive', '3', '-maxops', '40'],
@@ -33,32 +34,32 @@ _hist_assumptions = ['log lines are written after the action they report; the dr
 
 PROPS = {
     'C01': {
-        'families': ['cycle'],
-        'fields': {'cycle': ['b1', 'b2', 'inbuf1', 'inbuf2']},
+        'families': ['cycle', 'hist'],
+        'fields': {'cycle': ['b1', 'b2', 'inbuf1', 'inbuf2'], 'hist': None},
         'nontrivial': r'b1=\[',
         'rule': _cycle_rule + 'non-trivial = the first cycle raised at least one batch; distinct = distinct scenario line',
         'explanation': 'cycle-level conservation and own-watcher theorems; machine-level history invariant pending (C01b)',
         'assumptions': ['ops are identified by payload ids chosen by the harness'],
     },
     'C02': {
-        'families': ['cycle'],
-        'fields': {'cycle': ['b1', 'inbuf1']},
+        'families': ['cycle', 'hist'],
+        'fields': {'cycle': ['b1', 'inbuf1'], 'hist': None},
         'nontrivial': r'lim=1 .*b1=\[',
         'rule': _cycle_rule + 'non-trivial = limiter attached and something released',
         'explanation': 'cycle-level rate theorems relative to the allowance read by the cycle; the float conversion of the allowance is executed natively by the driver (tested, not proved)',
         'assumptions': ['allowance = uint32(float64(cap)/1000.0*float64(ms)) evaluated with IEEE doubles in the Lean driver'],
     },
     'C08': {
-        'families': ['cycle'],
-        'fields': {'cycle': ['b1', 'inbuf1', 'b2', 'inbuf2']},
+        'families': ['cycle', 'hist'],
+        'fields': {'cycle': ['b1', 'inbuf1', 'b2', 'inbuf2'], 'hist': None},
         'nontrivial': r'inbuf1=[1-9]',
         'rule': _cycle_rule + 'non-trivial = something stayed buffered after the first cycle',
         'explanation': 'work-conservation, head progress, bounded delivery (delivered_within) over the cycle model; known finding F6 (v2 allowance 0)',
         'assumptions': [],
     },
     'C10': {
-        'families': ['cycle'],
-        'fields': {'cycle': ['infl1', 'infl3', 'b1', 'inbuf1']},
+        'families': ['cycle', 'hist'],
+        'fields': {'cycle': ['infl1', 'infl3', 'b1', 'inbuf1'], 'hist': None},
         'nontrivial': r'gen=2 .*slots=[1-9].*b1=\[',
         'rule': _cycle_rule + 'non-trivial = v2 with a slot limit and something released',
         'explanation': 'cycle-level slot theorems; machine-level invariant pending (C10b)',
@@ -93,6 +94,41 @@ PROPS = {
         'explanation': 'L1 buffer + condition-variable machine: bound, FIFO, cursor validity, no lost wake-up, waiters released by shutdown; tie = exhaustive short sequences + random',
         'assumptions': ['sync.Cond.Signal wakes the longest-waiting caller (runtime notifyList is FIFO)',
                         'v1 buffer is a Go channel: its bound and blocking behaviour are the runtime\'s; v1 is observed through the Batcher (hist family) only'],
+    },
+    'C11': {
+        'families': ['hist'], 'fields': {'hist': None},
+        'nontrivial': r'tr=.*ev:batch',
+        'rule': _hist_rule + 'callback durations MaxOperationTime-1ns / exactly / +1ns / never and samples 1 ns before, at and after each write-off instant; non-trivial = at least one batch was raised',
+        'explanation': 'settled-state characterisation finished <-> returned or timed out; write-off only once; precedence of the limits',
+        'assumptions': _hist_assumptions + ['"exactly" is exact in virtual time (testing/synctest); wall-clock jitter is outside the model'],
+    },
+    'C12': {
+        'families': ['hist'], 'fields': {'hist': None},
+        'nontrivial': r'tr=.*giveme',
+        'rule': _hist_rule + 'non-trivial = at least one GiveMe call was observed',
+        'explanation': 'request carries the current demand; only takeCap requests; <=1 request per tick (run-level counting), urgency (no time passes over an unanswered tick); not while paused / stopped',
+        'assumptions': _hist_assumptions,
+    },
+    'C13': {
+        'families': ['hist'], 'fields': {'hist': None},
+        'nontrivial': r'tr=.*ev:pause',
+        'rule': _hist_rule + 'non-trivial = at least one pause event was observed',
+        'explanation': 'pause = sleep of exactly PauseTime during which no loop action is enabled; ineffective calls change nothing; pauses = effective calls',
+        'assumptions': _hist_assumptions + ['"exactly" is exact in virtual time'],
+    },
+    'C16': {
+        'families': ['hist', 'setters'], 'fields': {'hist': None, 'setters': ['res']},
+        'nontrivial': r'(tr=.*act:X)|(when=after)',
+        'rule': _hist_rule + 'setters family: every v2 With* setter before Start, after Start and after shutdown; non-trivial = a stop was requested / a setter was called after Start',
+        'explanation': 'phase automaton (start once), one shutdown event, nothing enabled after exit, stop taken within PauseTime, v2 enqueue refused after shutdown; v1 panic is finding F3; v1 Stop-during-pause deadlock (F5) fixed',
+        'assumptions': _hist_assumptions + ['a scenario that stops making progress in real time is reported by the watchdog as a hang (does-not-terminate)'],
+    },
+    'C19': {
+        'families': ['hist'], 'fields': {'hist': None},
+        'nontrivial': r'tr=.*ev:audit',
+        'rule': _hist_rule + 'non-trivial = at least one audit event was observed',
+        'explanation': 'healthy audit leaves demand and slots alone (under C03 invariant, no enqueue in flight = finding F9), stale figure repaired; audit ticks urgent',
+        'assumptions': _hist_assumptions,
     },
     'C14': {
         'families': ['admit'],
